@@ -29,8 +29,12 @@ long g_i;                            /* sortedness observer: adjacent pair (g_i,
 long g_k; int64_t g_vk, g_vk1, g_vkm1; /* positional observer: cell g_k and the pre-state of cells g_k, g_k+1, g_k-1 */
 int64_t g_v; long g_cnt;             /* counting observer: value g_v occurs g_cnt times in the input */
 
-/* constant bound: expanded by the SAT back end */
-#define SORTED_ADJ(a, n) __CPROVER_forall { long k_; (0 <= k_ && k_ < SR_N - 1) ==> (!(k_ + 1 < (n)) || (a)[k_] <= (a)[k_ + 1]) }
+/* sortedness of the input: explicit conjunction over the (constant) number of adjacent pairs
+ * (a constant-bound __CPROVER_forall is expanded by SAT too, but CBMC 6.11 "ignores" it when the range
+ * has exactly one element, i.e. at n = 2 -- measured) */
+#define S1(a, n, k) (!((k) + 1 < (n)) || (a)[(k)] <= (a)[(k) + 1])
+#define SORTED_ADJ(a, n) (S1(a, n, 0) && S1(a, n, 1) && S1(a, n, 2) && S1(a, n, 3) && S1(a, n, 4) && S1(a, n, 5) && \
+	S1(a, n, 6) && S1(a, n, 7) && S1(a, n, 8) && S1(a, n, 9) && S1(a, n, 10))
 
 /* count of v in a[0..n): constant-bound sum */
 #define C1(a, n, v, k) ((long) ((k) < (n) && (a)[(k)] == (v)))
